@@ -998,7 +998,8 @@ def run_pipeline(desc):
         return dict(wire=[2, 1, hw, [], [sorted(eligible)]], impl=out[2][0], pred=pred, features=feats + ["as-holder-script"], cmp=cmp_result())
     tbl = [[pid, float_key(v)] for pid, v in sorted(recorded.items())]
     if desc["scorer"] == "stub":
-        tbl = [[pid, float_key(table[pid])] for pid in sorted({r[0] for r in w})]
+        # a NaN entry can only belong to a plate no call scored here (a scored NaN took the branch above): its value is never read
+        tbl = [[pid, float_key(table[pid]) if table[pid] == table[pid] else 0] for pid in sorted({r[0] for r in w})]
     polw = None if not has_policy else [polrec if polrec is not None else []]
     if has_policy and polrec is None and not isinstance(out, ImplError):
         polw = [[]]
